@@ -244,11 +244,21 @@ pub fn decode(buf: &[u8]) -> Verdict {
     if !tiled {
         causes.push(Cause::AttrOverrun);
     }
-    // ordering rules and fingerprint, on whatever tiled
+    // ordering rules and fingerprint, on whatever tiled -- plus, for the ordering rules only, a
+    // trailing attribute whose header is present but which overruns the body (its type is known, so
+    // "an attribute of that type after ..." is a defect that is present, too)
     let mut seen_int = false;
     let mut seen_fp = false;
     let mut seen = [false; 3];
-    for a in &all {
+    let mut scan: Vec<(RefAttr, bool)> = all.iter().cloned().map(|a| (a, true)).collect();
+    if !tiled {
+        let o = all.last().map(|a| a.end_padded()).unwrap_or(20);
+        if walk_end >= o + 4 {
+            scan.push((RefAttr { ty: be16(&buf[o..]), off: o, len: be16(&buf[o + 2..]) as usize }, false));
+        }
+    }
+    for (a, complete) in &scan {
+        let complete = *complete;
         let slot = match a.ty {
             MI => Some(0),
             MI256 => Some(1),
@@ -267,7 +277,7 @@ pub fn decode(buf: &[u8]) -> Verdict {
                 _ => {}
             }
         }
-        if a.ty == FP {
+        if a.ty == FP && complete {
             if a.len != 4 {
                 causes.push(Cause::FpMalformed);
             } else {
